@@ -543,3 +543,62 @@ fn c11_poll_handshake() {
     std::mem::forget(cq);
     std::mem::forget(shared);
 }
+
+//@ prop: C11
+//@ tier: quick
+//@ what: a wake() that happened while no poll was waiting must not be lost by a poll that finds completions already queued (no kernel wait): after that poll the "awoken" flag is still set -- so the NEXT poll, finding the queue empty, passes a zero timeout -- or the poll itself consumed it by entering the kernel with a zero timeout; decided through two consecutive real polls
+//@ bound: CQ with one bookkeeping completion (wake message) queued, then empty; caller timeout None for both polls; wake before the first poll or not (symbolic)
+//@ encodes: io_uring::cq::Completions::poll (fast path and waiting path); PollingState::{set_polling,wake}; io_uring::Shared::enter
+//@ stubs: io_uring::Shared::wake_blocked_futures -> no-op (C03); <core::io::CustomOwner as Drop>::drop -> no-op
+#[kani::proof]
+#[kani::unwind(3)]
+#[kani::stub(crate::io_uring::Shared::wake_blocked_futures, noop_wake_blocked_c11)]
+#[kani::stub(<core::io::CustomOwner as core::ops::Drop>::drop, crate::verif_stubs::custom_owner_drop_noop)]
+fn c11_wake_survives_fast_path_poll() {
+    let mut table = k::base_table();
+    table.io_uring_enter2 = Some(c11_enter);
+    k::install(table);
+    k::sq_set(0, 0);
+    let mem = k::cq_mem();
+    mem.head.store(6, Ordering::Relaxed);
+    mem.tail.store(7, Ordering::Relaxed);
+    // one queued bookkeeping completion: an earlier wake message (user_data 1)
+    mem.cqes[0].user_data = 1;
+    mem.cqes[0].res = 0;
+    mem.cqes[0].flags = 0;
+    let shared = k::build_shared(2, false, false);
+    let mut cq = build_completions(2);
+    let woken_before: bool = kani::any();
+    unsafe {
+        ENTER_CALLS.v = 0;
+        C11_SHARED.v = &shared;
+        C11_HAS_TS.v = false;
+        C11_WAKE_IN_KERNEL.v = false;
+        C11_ENTER_FAILS.v = false;
+    }
+    if woken_before {
+        let _ = shared.polling.wake();
+    }
+    // first poll: completions available, no kernel wait
+    let r1 = cq.poll(&shared, None);
+    assert!(r1.is_ok());
+    assert!(mem.head.load(Ordering::Relaxed) == 7, "the queued completion was consumed");
+    let waited_in_first = unsafe { ENTER_CALLS.v } == 1;
+    // second poll: queue empty -> it waits in the kernel
+    let r2 = cq.poll(&shared, None);
+    assert!(r2.is_ok());
+    unsafe {
+        assert!(ENTER_CALLS.v >= 1, "empty queue: a kernel wait");
+        if woken_before && !waited_in_first {
+            assert!(C11_HAS_TS.v && C11_TS_SEC.v == 0 && C11_TS_NSEC.v == 0, "the earlier wake() makes the next waiting poll return promptly (zero timeout)");
+        }
+        if !woken_before {
+            assert!(!C11_HAS_TS.v, "no wake, no timeout given: an indefinite wait is what was asked for");
+        }
+    }
+    kani::cover!(woken_before && !waited_in_first);
+    kani::cover!(!woken_before);
+    std::mem::forget((r1, r2));
+    std::mem::forget(cq);
+    std::mem::forget(shared);
+}
